@@ -349,17 +349,24 @@ pub proof fn lemma_drc_members<P: Prefix, T>(m0: PrefixMap<P, T>, st: Seq<usize>
         forall|a: int, b: int| st.len() - 1 <= a < b < st2.len() ==> kb(m0.tab(), st2[a] as int)[kb(m0.tab(), st.last() as int).len() as int] != kb(m0.tab(), st2[b] as int)[kb(m0.tab(), st.last() as int).len() as int],
         forall|side: bool| #![trigger chd(m0.tab(), st.last() as int, side)] chd(m0.tab(), st.last() as int, side).is_some() ==> exists|k: int| st.len() - 1 <= k < st2.len() && #[trigger] st2[k] == chd(m0.tab(), st.last() as int, side).unwrap(),
 {
-    reveal(drc_b1);
     let t0 = m0.tab(); let l0 = m0.live();
     let y = st.last() as int;
     let rest = st.drop_last();
-    lemma_glob(t0, l0);
-    assert(l0.contains(st[st.len() - 1] as int));
-    assert(child_ok(t0, l0, y, false));
-    assert(child_ok(t0, l0, y, true));
+    assert(l0.contains(y)) by { reveal(drc_b1); assert(l0.contains(st[st.len() - 1] as int)); }
+    lemma_pre_refl(kb(t0, y));
+    lemma_step(t0, l0, y, kb(t0, y));
+    assert(chd(t0, y, false) == t0[y].left && chd(t0, y, true) == t0[y].right);
     assert forall|k: int| 0 <= k < st2.len() implies l0.contains(#[trigger] st2[k] as int)
             && (k < st.len() - 1 ==> st2[k] == st[k]) && (k >= st.len() - 1 ==> spre(kb(t0, y), kb(t0, st2[k] as int))) by {
-        if k < rest.len() { assert(st2[k] == st[k]); assert(l0.contains(st[k] as int)); }
+        if k < rest.len() {
+            assert(st2[k] == st[k]);
+            assert(l0.contains(st[k] as int)) by { reveal(drc_b1); }
+        } else {
+            assert(st2[k] == t0[y].left.unwrap() || st2[k] == t0[y].right.unwrap());
+        }
+    }
+    assert forall|a: int, b: int| st.len() - 1 <= a < b < st2.len() implies kb(t0, st2[a] as int)[kb(t0, y).len() as int] != kb(t0, st2[b] as int)[kb(t0, y).len() as int] by {
+        assert(st2[a] == t0[y].left.unwrap() && st2[b] == t0[y].right.unwrap());
     }
     assert forall|side: bool| #![trigger chd(t0, y, side)] chd(t0, y, side).is_some() implies exists|k: int| st.len() - 1 <= k < st2.len() && #[trigger] st2[k] == chd(t0, y, side).unwrap() by {
         if side {
